@@ -192,9 +192,9 @@ def intended_loop(kind, x):
             if not (w[0][0] == "code" and jumps.base(w[0][1]) == "condition" and t == 1):
                 bad.append("expected `<condition> while_loop`")
         else:
-            # the test starts right after the initialisation (the last store_fast before the loop instruction): the back edge re-runs the
+            # the test starts right after the initialisation (the last store / store_fast before the loop instruction): the back edge re-runs the
             # test, never the initialisation.  What the test consists of is the skeleton rule's business.
-            inits = [k for k in range(t) if ins_at(w, k, "store_fast")]
+            inits = [k for k in range(t) if ins_at(w, k, "store_fast") or ins_at(w, k, "store")]
             cond = inits[-1] + 1 if inits else None
             if cond is None:
                 bad.append("no counter initialisation (store_fast) before the loop test")
@@ -244,24 +244,37 @@ def from_skeleton(inclusive, step, coll, names):
     def f(w):
         bad = []
         # the counter is parked with store_fast (a new name) or store (an existing variable, assigned in place): which of the two is right is
-        # C07's business (`C07.fresh-cell`), the loop's control flow is the same
-        if not (len(w) > 8 and w[0][0] == "code" and jumps.base(w[0][1]) == "val_start" and (ins_at(w, 1, "store_fast") or ins_at(w, 1, "store"))
-                and w[2][0] == "code" and jumps.base(w[2][1]) == "val_end" and ins_at(w, 3, "store_fast")):
-            return ["expected `<val_start> store[_fast] C <val_end> store_fast E` first"]
-        c, e = reg(w[1]), reg(w[3])
+        # C07's business (`C07.fresh-cell`).  When the counter reuses an existing variable the end bound may mention it (`from 0 to n, n`), so
+        # both bounds are evaluated before the counter is written: the start value waits in a register of its own.
+        def is_code(i, name):
+            return len(w) > i and w[i][0] == "code" and jumps.base(w[i][1]) == name
+        if coll and len(w) > 10 and is_code(0, "val_start") and ins_at(w, 1, "store_fast") and is_code(2, "val_end") and ins_at(w, 3, "store_fast") \
+                and ins_at(w, 4, "load_fast") and (ins_at(w, 5, "store") or ins_at(w, 5, "store_fast")):
+            if reg(w[4]) != reg(w[1]):
+                bad.append("the counter is not initialised from the register the start value was parked in")
+            c, e = reg(w[5]), reg(w[3])
+            t0 = 6
+        elif len(w) > 8 and is_code(0, "val_start") and (ins_at(w, 1, "store_fast") or ins_at(w, 1, "store")) and is_code(2, "val_end") and ins_at(w, 3, "store_fast"):
+            if coll:
+                bad.append("the counter (an existing variable) is written before the end bound is evaluated: `n = 5; from 0 to n, n {..}` runs zero times")
+            c, e = reg(w[1]), reg(w[3])
+            t0 = 4
+        else:
+            return ["expected `<val_start> store_fast C <val_end> store_fast E` (new counter) or `<val_start> store_fast S <val_end> store_fast E load_fast S store C` "
+                    "(counter reuses a variable) first"]
         if c is None or e is None or c == e:
             bad.append("counter and bound are parked in the same register (%s)" % c if c == e else "the registers could not be read")
-        if not (ins_at(w, 4, "load_fast") and ins_at(w, 5, "load_fast") and ins_at(w, 6, "bin_op") and ins_at(w, 7, "while_loop")):
+        if not (ins_at(w, t0, "load_fast") and ins_at(w, t0 + 1, "load_fast") and ins_at(w, t0 + 2, "bin_op") and ins_at(w, t0 + 3, "while_loop")):
             return bad + ["expected `load_fast C load_fast E bin_op while_loop` as the test"]
-        if reg(w[4]) != c or reg(w[5]) != e:
-            bad.append("the test loads %s, %s; expected the counter then the bound" % (reg(w[4]), reg(w[5])))
-        op = lit(w[6])
+        if reg(w[t0]) != c or reg(w[t0 + 1]) != e:
+            bad.append("the test loads %s, %s; expected the counter then the bound" % (reg(w[t0]), reg(w[t0 + 1])))
+        op = lit(w[t0 + 2])
         if op != ("<=" if inclusive else "<"):
             bad.append("`%s` loop tests with %r, expected %r" % ("through" if inclusive else "to", op, "<=" if inclusive else "<"))
         body = index_of_code(w, "body")
-        if body != [8]:
+        if body != [t0 + 4]:
             return bad + ["expected the body right after the test"]
-        k = 9
+        k = t0 + 5
         if step:
             if not (k < len(w) and w[k][0] == "code" and jumps.base(w[k][1]) == "step"):
                 bad.append("expected the step expression after the body")
